@@ -69,6 +69,16 @@ theorem ExprTie_select_shape :
     selKeyword.parseErrorIsError = true ∧ selMark.parseErrorIsError = true ∧ selAfter.parseErrorIsError = true := by
   decide
 
+/-- One iteration of `_modify_dag`'s loop for a task with `after="<expr>"` — evaluate `select_by_after_keyword` on this
+task's own string, discard the task itself, draw edges from the selected tasks' successors — is `afterPredsOf`; the
+translator has established that an iteration reads nothing written by an earlier one (`afterLoop.stateless`; a memo
+dictionary filled inside the loop, a set reused across tasks, … are rejected fail-closed), so the whole loop is
+`modifyDagAfter`, the map of this step over the tasks. -/
+theorem ExprTie_afterStep (isWord : Char → Bool) (lower : List Char → List Char) (tasks : List TaskInfo) (i : Nat)
+    (expr : List Char) :
+    afterStepGen afterLoop isWord lower tasks i expr = afterPredsOf isWord lower tasks i expr ∧ afterLoop.stateless = true :=
+  ⟨afterStepGen_eq isWord lower tasks i expr, by decide⟩
+
 /-- Non-vacuity: the interpreter is not trivially equal — run on a rule table with swapped loop tokens it parses
 `a or b and c` differently from the model, and with an optional closing parenthesis it accepts `(a`. -/
 example :
